@@ -10,6 +10,35 @@
 #               {function-key-or-'*': oracle name}
 #   kani:       {tier: [harness,...]}
 PROPS = {
+    'C06': {
+        'units': ['unify'],
+        'functions': ['unifiable.rs::Unifiable::unify'],
+        'oracles': {'*': 'c06_keeps'},
+        'not_covered': [
+            'completeness in general (unification succeeds whenever a unifier exists) - only the constant/constant and unbound-variable/constant cases are proved',
+            'soundness as equality of the fully resolved terms (needs resolution through bound tails; not yet under proof)',
+            'minimality of the binding set in general (proved: equal terms add nothing; every new binding is of a previously unbound variable)',
+            'termination of unify (recursion through bound variables has no structural measure; exec_allows_no_decreases_clause)',
+        ],
+    },
+    'C08': {
+        'units': ['unify'],
+        'functions': [],
+        'oracles': {'*': 'c08_cycle'},
+        'not_covered': ['termination of replace_variables / Display (they recurse through structures)'],
+    },
+    'C09': {
+        'units': ['unify'],
+        'functions': [],
+        'oracles': {'*': 'c09_anon'},
+        'not_covered': ['programs using $_ in heads and bodies: the solver is outside reach; the clause covers every unify call, hence every position, by modularity'],
+    },
+    'C13': {
+        'units': ['unify'],
+        'functions': [],
+        'oracles': {'*': 'c13_function'},
+        'not_covered': [],
+    },
     'C15': {
         'units': ['lists'],
         'functions': ['s_linked_list.rs::make_linked_list', 's_linked_list.rs::link_front'],
